@@ -19,7 +19,7 @@ from sim import stubs
 PROP = "C19"
 LEVEL = "fault_enumeration"
 HASH_VARIANTS = 1
-RUNS = {"quick": 1600, "thorough": 240000}
+RUNS = {"quick": 1600, "thorough": 720000}
 WALL_LIMIT = {"quick": 1500, "thorough": 5 * 3600}
 DET_SAMPLE = {"quick": 48, "thorough": 400}
 PROBES = ["kill_inside_copy", "kill_between_files", "kill_holding_lock", "load_during_population",
